@@ -64,7 +64,7 @@ PROPS = {
         'level': 'proof',
         'technique': TECH + '; representation invariants as postconditions of constructor and __setitem__ (induction over assignment histories)',
         'explanation': 'Density/Diameter __init__, __setitem__ (single type or list, any subset already assigned, re-assignment), __getitem__, check refined against specs and shown to re-establish Inv_rho (pair=rho_a rho_b, site diag rho_a / off-diag rho_a+rho_b, total=sum) and Inv_d (sigma=(d_a+d_b)/2, volume=pi d^3/6) for every assigned subset.',
-        'assumptions': [A_FP, A_TYPES, A_RANK, A_NUMPY],
+        'assumptions': [A_FP, A_TYPES, A_RANK, A_NUMPY, 'assigned values are modelled as real numbers (immutable); what a mutable number object does (0-d numpy array, np.asarray result) is covered only by the bounded stand-in density-diameter-histories-with-numpy-valued-assignments'],
     },
 }
 
